@@ -46,7 +46,7 @@ template<int D> using view_t = multi::subarray<T, D, ptr_t>;
 struct elem0 { T* p; };  // zero-dimensional result: one element
 using any_view = std::variant<std::monostate, elem0, view_t<1>, view_t<2>, view_t<3>, view_t<4>, view_t<5>>;
 
-struct op_t { std::string name; std::vector<long> a; };
+struct op_t { std::string name; std::vector<long> a; int recv = 0; };  // recv: 0 lvalue, 1 const lvalue, 2 temporary (the value category of the receiver)
 
 static T* g_root = nullptr;  // data_elements() of the root
 static long g_root_n = 0;
@@ -61,19 +61,23 @@ struct unsupported { std::string why; };
 
 template<int D> void put(any_view& v, view_t<D>&& nv) { v.template emplace<view_t<D>>(std::move(nv)); }
 
+template<int M, class V> constexpr decltype(auto) rcv(V& v) {
+	if constexpr(M == 1) { return std::as_const(v); } else if constexpr(M == 2) { return std::move(v); } else { return (v); }
+}
+
 // call syntax with a mix of index / range / all arguments
-template<int D, class... As>
+template<int D, int M, class... As>
 void paren_rec(view_t<D>& cur, std::vector<long> const& a, std::size_t pos, any_view& out, As... as) {
 	if(pos * 3 == a.size()) {
 		if constexpr(sizeof...(As) == 0) {
-			put<D>(out, norm(cur()));
+			put<D>(out, norm(rcv<M>(cur)()));
 		} else {
-			using R = decltype(cur(as...));
+			using R = decltype(rcv<M>(cur)(as...));
 			if constexpr(std::is_reference_v<R> || std::is_arithmetic_v<std::decay_t<R>>) {
-				T const& r = cur(as...);
+				T const& r = rcv<M>(cur)(as...);
 				out.template emplace<elem0>(elem0{const_cast<T*>(&r)});
 			} else {
-				auto&& r = cur(as...);
+				auto&& r = rcv<M>(cur)(as...);
 				constexpr int DD = std::decay_t<decltype(r)>::rank_v;
 				put<DD>(out, norm(r));
 			}
@@ -82,70 +86,78 @@ void paren_rec(view_t<D>& cur, std::vector<long> const& a, std::size_t pos, any_
 	}
 	if constexpr(sizeof...(As) < static_cast<std::size_t>(D) && sizeof...(As) < 4) {
 		long k = a[pos * 3], x = a[pos * 3 + 1], y = a[pos * 3 + 2];
-		if(k == 0) { paren_rec<D>(cur, a, pos + 1, out, as..., static_cast<multi::index>(x)); }
-		else if(k == 1) { paren_rec<D>(cur, a, pos + 1, out, as..., multi::irange(x, y)); }
-		else { paren_rec<D>(cur, a, pos + 1, out, as..., multi::_); }
+		if(k == 0) { paren_rec<D, M>(cur, a, pos + 1, out, as..., static_cast<multi::index>(x)); }
+		else if(k == 1) { paren_rec<D, M>(cur, a, pos + 1, out, as..., multi::irange(x, y)); }
+		else { paren_rec<D, M>(cur, a, pos + 1, out, as..., multi::_); }
 	} else {
 		throw unsupported{"paren arity"};
 	}
 }
 
-template<int D>
-void apply_op(view_t<D>& cur, op_t const& o, any_view& out) {
+template<int D, int M>
+void apply_op_m(view_t<D>& cur, op_t const& o, any_view& out) {
 	auto const& n = o.name;
 	auto const& a = o.a;
 	if(n == "index") {
-		if constexpr(D == 1) { out.template emplace<elem0>(elem0{&cur[a[0]]}); }
-		else { put<D - 1>(out, norm(cur[a[0]])); }
-	} else if(n == "sliced")     { put<D>(out, norm(cur.sliced(a[0], a[1])));
-	} else if(n == "blocked")    { put<D>(out, norm(cur.blocked(a[0], a[1])));
+		if constexpr(D == 1) { out.template emplace<elem0>(elem0{const_cast<T*>(&rcv<M>(cur)[a[0]])}); }
+		else { put<D - 1>(out, norm(rcv<M>(cur)[a[0]])); }
+	} else if(n == "sliced")     { put<D>(out, norm(rcv<M>(cur).sliced(a[0], a[1])));
+	} else if(n == "blocked")    { put<D>(out, norm(rcv<M>(cur).blocked(a[0], a[1])));
 	} else if(n == "stenciled")  {
-		if(a.size() == 2) { put<D>(out, norm(cur.stenciled({a[0], a[1]}))); }
-		else if constexpr(D >= 2) { if(a.size() == 4) { put<D>(out, norm(cur.stenciled({a[0], a[1]}, {a[2], a[3]}))); } else { throw unsupported{"stenciled arity"}; } }
+		if(a.size() == 2) { put<D>(out, norm(rcv<M>(cur).stenciled({a[0], a[1]}))); }
+		else if constexpr(D >= 2) { if(a.size() == 4) { put<D>(out, norm(rcv<M>(cur).stenciled({a[0], a[1]}, {a[2], a[3]}))); } else { throw unsupported{"stenciled arity"}; } }
 		else { throw unsupported{"stenciled arity"}; }
-	} else if(n == "range")      { put<D>(out, norm(cur.range({a[0], a[1]})));
+	} else if(n == "range")      { put<D>(out, norm(rcv<M>(cur).range({a[0], a[1]})));
 	} else if(n == "front" || n == "back") {
-		if constexpr(D == 1) { out.template emplace<elem0>(elem0{n == "front" ? &cur.front() : &cur.back()}); }
-		else { if(n == "front") { put<D - 1>(out, norm(cur.front())); } else { put<D - 1>(out, norm(cur.back())); } }
-	} else if(n == "addr")       { auto p = &cur; put<D>(out, norm(*p));
-	} else if(n == "strided")    { put<D>(out, norm(cur.strided(a[0])));
-	} else if(n == "dropped")    { put<D>(out, norm(cur.dropped(a[0])));
-	} else if(n == "taked")      { put<D>(out, norm(cur.taked(a[0])));
-	} else if(n == "rotated")    { put<D>(out, norm(cur.rotated()));
-	} else if(n == "unrotated")  { put<D>(out, norm(cur.unrotated()));
-	} else if(n == "reversed")   { put<D>(out, norm(cur.reversed()));
+		if constexpr(D == 1) { out.template emplace<elem0>(elem0{const_cast<T*>(n == "front" ? &rcv<M>(cur).front() : &rcv<M>(cur).back())}); }
+		else { if(n == "front") { put<D - 1>(out, norm(rcv<M>(cur).front())); } else { put<D - 1>(out, norm(rcv<M>(cur).back())); } }
+	} else if(n == "addr")       { auto p = &rcv<M>(cur); put<D>(out, norm(*p));
+	} else if(n == "strided")    { put<D>(out, norm(rcv<M>(cur).strided(a[0])));
+	} else if(n == "dropped")    { put<D>(out, norm(rcv<M>(cur).dropped(a[0])));
+	} else if(n == "taked")      { put<D>(out, norm(rcv<M>(cur).taked(a[0])));
+	} else if(n == "rotated")    { put<D>(out, norm(rcv<M>(cur).rotated()));
+	} else if(n == "unrotated")  { put<D>(out, norm(rcv<M>(cur).unrotated()));
+	} else if(n == "reversed")   { put<D>(out, norm(rcv<M>(cur).reversed()));
 	} else if(n == "reindexed")  {
-		if(a.size() == 1) { put<D>(out, norm(cur.reindexed(a[0]))); }
-		else if constexpr(D >= 2) { if(a.size() == 2) { put<D>(out, norm(cur.reindexed(a[0], a[1]))); } else { throw unsupported{"reindexed arity"}; } }
+		if(a.size() == 1) { put<D>(out, norm(rcv<M>(cur).reindexed(a[0]))); }
+		else if constexpr(D >= 2) { if(a.size() == 2) { put<D>(out, norm(rcv<M>(cur).reindexed(a[0], a[1]))); } else { throw unsupported{"reindexed arity"}; } }
 		else { throw unsupported{"reindexed arity"}; }
 	} else if(n == "transposed") {
-		if constexpr(D >= 2) { put<D>(out, norm(cur.transposed())); } else { throw unsupported{"transposed D<2"}; }
+		if constexpr(D >= 2) { put<D>(out, norm(rcv<M>(cur).transposed())); } else { throw unsupported{"transposed D<2"}; }
 	} else if(n == "diagonal") {
-		if constexpr(D >= 2) { put<D - 1>(out, norm(cur.diagonal())); } else { throw unsupported{"diagonal D<2"}; }
+		if constexpr(D >= 2) { put<D - 1>(out, norm(rcv<M>(cur).diagonal())); } else { throw unsupported{"diagonal D<2"}; }
 	} else if(n == "flatted") {
 		if constexpr(D >= 2) {
 #pragma GCC diagnostic push
 #pragma GCC diagnostic ignored "-Wdeprecated-declarations"
-			if(!cur.is_flattable()) { throw unsupported{"not flattable"}; }
+			if(!rcv<M>(cur).is_flattable()) { throw unsupported{"not flattable"}; }
 #pragma GCC diagnostic pop
-			put<D - 1>(out, norm(cur.flatted()));
+			put<D - 1>(out, norm(rcv<M>(cur).flatted()));
 		} else { throw unsupported{"flatted D<2"}; }
 	} else if(n == "halved") {
-		if constexpr(D < MAXD) { put<D + 1>(out, norm(cur.halved())); } else { throw unsupported{"dim"}; }
-	} else if(n == "sliced3") { put<D>(out, norm(cur.sliced(a[0], a[1], a[2])));
+		if constexpr(D < MAXD) { put<D + 1>(out, norm(rcv<M>(cur).halved())); } else { throw unsupported{"dim"}; }
+	} else if(n == "sliced3") { put<D>(out, norm(rcv<M>(cur).sliced(a[0], a[1], a[2])));
 	} else if(n == "tilde") {
-		if constexpr(D >= 2) { put<D>(out, norm(~cur)); } else { throw unsupported{"tilde D<2"}; }
+		if constexpr(D >= 2) { put<D>(out, norm(~rcv<M>(cur))); } else { throw unsupported{"tilde D<2"}; }
 	} else if(n == "partitioned") {
-		if constexpr(D < MAXD) { put<D + 1>(out, norm(cur.partitioned(a[0]))); } else { throw unsupported{"dim"}; }
+		if constexpr(D < MAXD) { put<D + 1>(out, norm(rcv<M>(cur).partitioned(a[0]))); } else { throw unsupported{"dim"}; }
 	} else if(n == "chunked") {
-		if constexpr(D < MAXD) { put<D + 1>(out, norm(cur.chunked(a[0]))); } else { throw unsupported{"dim"}; }
+		if constexpr(D < MAXD) { put<D + 1>(out, norm(rcv<M>(cur).chunked(a[0]))); } else { throw unsupported{"dim"}; }
 	} else if(n == "broadcast") {
-		if constexpr(D < MAXD) { put<D>(out, norm(cur.broadcasted()[a[0]])); } else { throw unsupported{"dim"}; }
+		if constexpr(D < MAXD) { put<D>(out, norm(rcv<M>(cur).broadcasted()[a[0]])); } else { throw unsupported{"dim"}; }
 	} else if(n == "paren") {
-		paren_rec<D>(cur, a, 0, out);
+		paren_rec<D, M>(cur, a, 0, out);
 	} else {
 		throw unsupported{"unknown op " + n};
 	}
+}
+
+// the receiver's value category selects the overload (&, const&, &&); what is designated must not depend on it
+template<int D>
+void apply_op(view_t<D>& cur, op_t const& o, any_view& out) {
+	if(o.recv == 1) { apply_op_m<D, 1>(cur, o, out); }
+	else if(o.recv == 2) { apply_op_m<D, 2>(cur, o, out); }
+	else { apply_op_m<D, 0>(cur, o, out); }
 }
 
 static void jlist(std::ostream& os, std::vector<long> const& v) {
@@ -167,6 +179,13 @@ auto make_ext(std::vector<long> const& sizes, std::vector<long> const& firsts, s
 }
 
 
+inline void split_recv(op_t& o) {  // "sliced@c" -> sliced on a const receiver, "@r" -> on a temporary
+	auto at = o.name.find('@');
+	if(at == std::string::npos) { return; }
+	o.recv = (o.name.substr(at) == "@c") ? 1 : 2;
+	o.name.erase(at);
+}
+
 // parse "<D> sizes firsts nops {name nargs args}" from a stream
 struct view_program { int D = 0; std::vector<long> sizes, firsts; std::vector<op_t> ops; };
 inline view_program parse_view_program(std::istream& is) {
@@ -181,6 +200,7 @@ inline view_program parse_view_program(std::istream& is) {
 		std::size_t na = 0; is >> o.name >> na;
 		o.a.resize(na);
 		for(auto& x : o.a) { is >> x; }
+		split_recv(o);
 	}
 	return p;
 }
